@@ -157,18 +157,29 @@ impl<'a> PrettyPrinter<'a> {
             .last()
             .is_some_and(|child| child.kind() == SyntaxKind::LineComment);
 
+        // A backslash at the end of the last argument must not touch the closing paren: `\)` is an escape.
+        let ends_with_backslash = children
+            .as_slice()
+            .last()
+            .is_some_and(is_ends_with_backslash);
+
         let mut peek_hashed_arg = false;
+        let mut peek_backslash = false;
         let inner = self.convert_flow_like_iter(ctx, children, |ctx, child| {
             let at_hashed_arg = peek_hashed_arg;
+            let at_backslash = peek_backslash;
             peek_hashed_arg = false;
+            peek_backslash = false;
             match child.kind() {
-                SyntaxKind::Comma => FlowItem::tight_spaced(self.arena.text(",")),
+                // A backslash must not touch the separator either: `\,` and `\;` are escapes.
+                SyntaxKind::Comma => FlowItem::new(self.arena.text(","), at_backslash, true),
                 SyntaxKind::Semicolon => {
                     // We should avoid the semicolon counted the terminator of the previous hashed arg.
-                    FlowItem::new(self.arena.text(";"), at_hashed_arg, true)
+                    FlowItem::new(self.arena.text(";"), at_hashed_arg || at_backslash, true)
                 }
                 SyntaxKind::Space => {
                     peek_hashed_arg = at_hashed_arg;
+                    peek_backslash = at_backslash;
                     if child.text().has_linebreak() {
                         FlowItem::tight(self.arena.hardline())
                     } else {
@@ -177,8 +188,11 @@ impl<'a> PrettyPrinter<'a> {
                 }
                 _ => {
                     if let Some(arg) = child.cast::<Arg>() {
-                        if is_ends_with_hashed_expr(arg.to_untyped().children()) {
+                        if is_ends_with_hashed_expr(arg.to_untyped()) {
                             peek_hashed_arg = true;
+                        }
+                        if is_ends_with_backslash(arg.to_untyped()) {
+                            peek_backslash = true;
                         }
                         FlowItem::spaced(self.convert_arg(ctx, arg))
                     } else {
@@ -194,9 +208,16 @@ impl<'a> PrettyPrinter<'a> {
             } else {
                 self.arena.line_()
             };
+            let close = if ends_with_backslash && !ends_with_line_comment {
+                self.arena.line()
+            } else {
+                close
+            };
             ((self.arena.line_() + inner).nest(self.config.tab_spaces as isize) + close)
                 .group()
                 .parens()
+        } else if ends_with_backslash {
+            (inner + self.arena.space()).parens()
         } else {
             inner.parens()
         }
@@ -235,9 +256,28 @@ impl<'a> PrettyPrinter<'a> {
     }
 }
 
-fn is_ends_with_hashed_expr(mut children: std::slice::Iter<'_, SyntaxNode>) -> bool {
-    children.next_back().is_some_and(|it| it.is::<Expr>())
+/// Whether the text of the node ends with an expression that follows a hash,
+/// at any depth (a row of 2D arguments is an array of math sequences).
+fn is_ends_with_hashed_expr(node: &SyntaxNode) -> bool {
+    let mut children = node.children();
+    let Some(last) = children.next_back() else {
+        return false;
+    };
+    if last.is::<Expr>()
         && children
             .next_back()
             .is_some_and(|it| it.kind() == SyntaxKind::Hash)
+    {
+        return true;
+    }
+    matches!(last.kind(), SyntaxKind::Array | SyntaxKind::Math) && is_ends_with_hashed_expr(last)
+}
+
+/// Whether the text of the node ends with a backslash (a line break in math).
+fn is_ends_with_backslash(node: &SyntaxNode) -> bool {
+    let mut node = node;
+    while let Some(last) = node.children().next_back() {
+        node = last;
+    }
+    node.kind() == SyntaxKind::Linebreak
 }
